@@ -67,6 +67,16 @@ def _cbf_history(ops, est, fpr):
                 for i, (x, y) in enumerate(zip(cur.bloom, other.bloom)):
                     if res[1].bloom[i] != min(x + y, U32):
                         return f"step {step}: union cell {i} is {res[1].bloom[i]}, expected {min(x + y, U32)}"
+                # results are operands of later unions: a result's element count is an estimate, its cells are not
+                again = core.call(res[1].union, res[1])
+                if again[0] == "err":
+                    return f"step {step}: union of a union result with itself raised {again[1]}"
+                if again[1] is not None:
+                    for i, x in enumerate(res[1].bloom):
+                        if again[1].bloom[i] != min(2 * x, U32):
+                            return f"step {step}: union of a union result with itself: cell {i} is {again[1].bloom[i]}, expected {min(2 * x, U32)}"
+                # (results are not adopted as the current filter: a saturated result carries the documented count -1,
+                # which cannot be exported — outside this property)
         # still exportable and loadable
         res = core.call(lambda: CountingBloomFilter.frombytes(bytes(cur)))
         if res[0] == "err":
